@@ -15,7 +15,7 @@ open Sq Sq.Inv
 theorem step_changes_only_scopes {Pc : List Op → Op → Nat → Prop} {Pb Pq : String → Prop} {Po : Op → Prop} {Pn : Name → Prop}
     {Psh : Prop} (hok : OpsOK Pc Pb Po Pn Psh) (hb : ∀ n, Pb n → n ∉ mutatorNames) (hsh : ¬ Psh) (budgets : List Nat) (c : Core)
     (hc : CorePDg Pc Pb Pq Po Pn Psh c) : HPres c.w (stepCore budgets c).w :=
-  step_hp hok hb hsh budgets c hc
+  (step_hp hok hb hsh budgets c hc).toHPres
 
 /-- **a program without mutators changes no host object**, at any step of its evaluation -/
 theorem quiet_program_changes_no_host_object (w : World) (bs : List Nat) (namesAddr budget : Nat) (tree : Op)
